@@ -246,3 +246,66 @@ pub fn bad_knobs() -> Vec<BadKnob> {
         k!("info-min-block-wrong", false, |s, _f| s.info_min_block = Some(65535)),
     ]
 }
+
+/// Every entry of the frame-header code tables: all block-size codes (common sizes 192, 576·2^k, 256·2^k and both
+/// explicit forms at their boundaries), all sample-rate codes (the 11 tabulated rates and the kHz / Hz / 10 Hz / STREAMINFO
+/// forms at their boundaries), all depth codes, all channel-assignment codes — as products, so that each pair of trailing
+/// header fields occurs. Constant / verbatim subframes keep even the 32768-sample blocks small.
+pub fn header_table_specs() -> Vec<(StreamSpec, serde_json::Value, bool)> {
+    use serde_json::json;
+    let mut out = Vec::new();
+    let blocks: Vec<(usize, BsCoding)> = vec![
+        (192, BsCoding::Auto), (576, BsCoding::Auto), (1152, BsCoding::Auto), (2304, BsCoding::Auto), (4608, BsCoding::Auto),
+        (256, BsCoding::Auto), (512, BsCoding::Auto), (1024, BsCoding::Auto), (2048, BsCoding::Auto), (4096, BsCoding::Auto),
+        (8192, BsCoding::Auto), (16384, BsCoding::Auto), (32768, BsCoding::Auto),
+        (16, BsCoding::Bits8), (255, BsCoding::Bits8), (256, BsCoding::Bits8), (192, BsCoding::Bits8),
+        (16, BsCoding::Bits16), (256, BsCoding::Bits16), (257, BsCoding::Bits16), (4096, BsCoding::Bits16), (65535, BsCoding::Bits16),
+        (100, BsCoding::Auto), (1000, BsCoding::Auto),
+    ];
+    let rates: Vec<(u32, RateCoding)> = vec![
+        (88200, RateCoding::Auto), (176400, RateCoding::Auto), (192000, RateCoding::Auto), (8000, RateCoding::Auto), (16000, RateCoding::Auto),
+        (22050, RateCoding::Auto), (24000, RateCoding::Auto), (32000, RateCoding::Auto), (44100, RateCoding::Auto), (48000, RateCoding::Auto), (96000, RateCoding::Auto),
+        (1000, RateCoding::KHz), (255000, RateCoding::KHz), (48000, RateCoding::KHz),
+        (1, RateCoding::Hz), (65535, RateCoding::Hz), (44100, RateCoding::Hz),
+        (10, RateCoding::DaHz), (655350, RateCoding::DaHz), (44100, RateCoding::DaHz),
+        (0, RateCoding::Streaminfo), (655351, RateCoding::Streaminfo), (1048575, RateCoding::Streaminfo), (44100, RateCoding::Streaminfo),
+    ];
+    let one = |ch: u8, bps: u8, rate: u32, rc: &RateCoding, n: usize, bc: &BsCoding, bpsc: BpsCoding, assign: Assign, kind: SubKind, variable: bool| -> StreamSpec {
+        let mk = |len: usize, base: usize| {
+            let pcm: Vec<Vec<i32>> = (0..ch as usize).map(|c| if kind == SubKind::Constant { vec![(c as i32 + 1) * 3 - 40; len] } else { target(0, bps, c, len, base, 0) }).collect();
+            let mut f = plain_frame(pcm);
+            f.bs = bc.clone();
+            f.rate = rc.clone();
+            f.bps = bpsc.clone();
+            f.assign = assign.clone();
+            for s in f.subframes.iter_mut() {
+                s.kind = kind.clone();
+            }
+            f
+        };
+        // two equal frames + a shorter last one (its size is coded explicitly)
+        let mut last = mk(n.min(16).max(1), 2 * n);
+        last.bs = BsCoding::Auto;
+        let mut st = plain_stream(ch, bps, rate, vec![mk(n, 0), mk(n, n), last]);
+        st.variable = variable;
+        st
+    };
+    for (bi, (n, bc)) in blocks.iter().enumerate() {
+        for (ri, (rate, rc)) in rates.iter().enumerate() {
+            let kind = if *n > 1200 { SubKind::Constant } else { SubKind::Fixed(1) };
+            let spec = one(1 + (ri % 2) as u8, 16, *rate, rc, *n, bc, BpsCoding::Auto, Assign::Independent, kind, bi % 2 == 1);
+            out.push((spec, json!({"sweep":"header-tables","block":n,"block_coding":format!("{bc:?}"),"rate":rate,"rate_coding":format!("{rc:?}")}), *rc != RateCoding::Streaminfo));
+        }
+    }
+    for (bps, bpsc) in [(8u8, BpsCoding::Auto), (12, BpsCoding::Auto), (16, BpsCoding::Auto), (20, BpsCoding::Auto), (24, BpsCoding::Auto), (32, BpsCoding::Auto), (4, BpsCoding::Streaminfo), (16, BpsCoding::Streaminfo), (17, BpsCoding::Streaminfo), (32, BpsCoding::Streaminfo)] {
+        for (ch, assign) in [(1u8, Assign::Independent), (2, Assign::Independent), (3, Assign::Independent), (4, Assign::Independent), (5, Assign::Independent), (6, Assign::Independent), (7, Assign::Independent), (8, Assign::Independent), (2, Assign::LeftSide), (2, Assign::SideRight), (2, Assign::MidSide)] {
+            for (n, bc) in [(16usize, BsCoding::Auto), (4096, BsCoding::Auto), (1152, BsCoding::Auto)] {
+                for variable in [false, true] {
+                    let spec = one(ch, bps, 48000, &RateCoding::Auto, n, &bc, bpsc.clone(), assign.clone(), if n > 16 { SubKind::Verbatim } else { SubKind::Fixed(2) }, variable);
+                    out.push((spec, json!({"sweep":"header-tables","bps":bps,"bps_coding":format!("{bpsc:?}"),"ch":ch,"assign":format!("{assign:?}"),"block":n,"variable":variable}), bpsc == BpsCoding::Auto));
+                }
+            }
+        }
+    }
+    out
+}
